@@ -299,6 +299,21 @@ def r5b_graph_as_requested(cx):
             bad.append(a)
     cx.require(not bad, bad[0] if bad else fn, "dr.run evaluates the graph determine_components() returned: it may prune it (hydrated archives) but never adds components or rebuilds it",
                construct=short(bad[0]) if bad else "graph variable '%s' only determined and pruned" % g)
+    # the values of the graph are the registry's own dependency sets (get_dependency_graph / get_subgraphs hand them out uncopied): pruning removes
+    # keys of the graph, it never edits a dependency set - that would change the registry for every later evaluation in the process
+    SETMUT = ("clear", "discard", "remove", "add", "update", "pop", "difference_update", "intersection_update", "symmetric_difference_update")
+    alias = set(t.id for a in walk_body(fn.body) if isinstance(a, ast.Assign) and isinstance(a.value, ast.Subscript) and U(a.value.value) == g for t in a.targets if isinstance(t, ast.Name))
+    alias |= set(t.id for a in walk_body(fn.body) if isinstance(a, ast.Assign) and isinstance(a.value, ast.Call) and call_attr(a.value) == "get" and U(a.value.func.value) == g for t in a.targets if isinstance(t, ast.Name))
+    mut = []
+    for a in walk_body(fn.body):
+        if isinstance(a, ast.Call) and isinstance(a.func, ast.Attribute) and a.func.attr in SETMUT:
+            r_ = a.func.value
+            if (isinstance(r_, ast.Subscript) and U(r_.value) == g) or (isinstance(r_, ast.Name) and r_.id in alias) or (isinstance(r_, ast.Call) and call_attr(r_) == "get" and U(r_.func.value) == g):
+                mut.append(a)
+        elif isinstance(a, ast.AugAssign) and ((isinstance(a.target, ast.Subscript) and U(a.target.value) == g) or (isinstance(a.target, ast.Name) and a.target.id in alias)):
+            mut.append(a)
+    cx.require(not mut, mut[0] if mut else fn, "dr.run never edits a dependency set of the graph (they are the registry's live sets, shared with every later evaluation)",
+               construct=short(mut[0]) if mut else "no mutation of %s[...]" % g)
 
 
 def _trace_to_call(expr, at):
